@@ -6,6 +6,7 @@ package simnet
 import (
 	"context"
 	"encoding/binary"
+	"errors"
 	"sync"
 	"time"
 
@@ -134,17 +135,25 @@ func (h *dlHost) SetStreamHandlerMatch(pid protocol.ID, m func(protocol.ID) bool
 
 type dlStream struct {
 	network.Stream
-	mu     sync.Mutex
-	rt, wt *time.Timer
+	mu               sync.Mutex
+	rt, wt           *time.Timer
+	reading, writing int  // calls currently blocked in Read / Write
+	rExp, wExp       bool // deadline passed while no call was blocked: the next call fails
 }
 
-func (s *dlStream) arm(tp **time.Timer, t time.Time) {
+var errDeadline = errors.New("simnet: i/o deadline exceeded")
+
+// arm sets (or clears) a deadline. What a real transport's deadline does: a read (write) blocked when it expires
+// fails - the stream is reset, which is also what the peer sees - and later reads (writes) fail at once; a stream
+// that is merely idle is left alone.
+func (s *dlStream) arm(tp **time.Timer, exp *bool, busy func() bool, t time.Time) {
 	s.mu.Lock()
 	defer s.mu.Unlock()
 	if *tp != nil {
 		(*tp).Stop()
 		*tp = nil
 	}
+	*exp = false
 	if t.IsZero() {
 		return
 	}
@@ -152,16 +161,64 @@ func (s *dlStream) arm(tp **time.Timer, t time.Time) {
 	if d < 0 {
 		d = 0
 	}
-	// what a real transport's deadline does to a blocked read/write: it fails; the peer sees a reset
-	*tp = time.AfterFunc(d, func() { _ = s.Stream.Reset() })
+	*tp = time.AfterFunc(d, func() {
+		s.mu.Lock()
+		blocked := busy()
+		if !blocked {
+			*exp = true
+		}
+		s.mu.Unlock()
+		if blocked {
+			_ = s.Stream.Reset()
+		}
+	})
 }
 
 func (s *dlStream) SetDeadline(t time.Time) error {
-	s.arm(&s.rt, t)
+	s.arm(&s.rt, &s.rExp, func() bool { return s.reading > 0 }, t)
+	s.arm(&s.wt, &s.wExp, func() bool { return s.writing > 0 }, t)
 	return nil
 }
-func (s *dlStream) SetReadDeadline(t time.Time) error  { s.arm(&s.rt, t); return nil }
-func (s *dlStream) SetWriteDeadline(t time.Time) error { s.arm(&s.wt, t); return nil }
+func (s *dlStream) SetReadDeadline(t time.Time) error {
+	s.arm(&s.rt, &s.rExp, func() bool { return s.reading > 0 }, t)
+	return nil
+}
+func (s *dlStream) SetWriteDeadline(t time.Time) error {
+	s.arm(&s.wt, &s.wExp, func() bool { return s.writing > 0 }, t)
+	return nil
+}
+
+func (s *dlStream) Read(p []byte) (int, error) {
+	s.mu.Lock()
+	if s.rExp {
+		s.mu.Unlock()
+		_ = s.Stream.Reset()
+		return 0, errDeadline
+	}
+	s.reading++
+	s.mu.Unlock()
+	n, err := s.Stream.Read(p)
+	s.mu.Lock()
+	s.reading--
+	s.mu.Unlock()
+	return n, err
+}
+
+func (s *dlStream) Write(p []byte) (int, error) {
+	s.mu.Lock()
+	if s.wExp {
+		s.mu.Unlock()
+		_ = s.Stream.Reset()
+		return 0, errDeadline
+	}
+	s.writing++
+	s.mu.Unlock()
+	n, err := s.Stream.Write(p)
+	s.mu.Lock()
+	s.writing--
+	s.mu.Unlock()
+	return n, err
+}
 
 func (s *dlStream) disarm() {
 	s.mu.Lock()
@@ -193,12 +250,12 @@ type Request struct {
 
 // Reply tells the scripted peer what to do with a request.
 type Reply struct {
-	Delay     time.Duration             // wait before answering (virtual)
-	Hang      bool                      // never answer (until the world closes or the stream dies)
-	Reset     bool                      // reset the stream instead of answering
-	Responses []*p2p_pb.HeaderResponse  // frames to send
-	Raw       []byte                    // raw bytes to send instead of / after the frames
-	NoClose   bool                      // leave the stream open after writing (client must time out)
+	Delay     time.Duration            // wait before answering (virtual)
+	Hang      bool                     // never answer (until the world closes or the stream dies)
+	Reset     bool                     // reset the stream instead of answering
+	Responses []*p2p_pb.HeaderResponse // frames to send
+	Raw       []byte                   // raw bytes to send instead of / after the frames
+	NoClose   bool                     // leave the stream open after writing (client must time out)
 }
 
 // Script decides the reply of peer `idx` to its n-th request.
@@ -206,12 +263,12 @@ type Script func(req Request) Reply
 
 // Peer is a scripted peer.
 type Peer struct {
-	w     *World
-	idx   int
-	mu    sync.Mutex
-	reqs  []Request
-	t0    time.Time
-	seq   int
+	w    *World
+	idx  int
+	mu   sync.Mutex
+	reqs []Request
+	t0   time.Time
+	seq  int
 }
 
 // ScriptPeer installs a scripted handler on host idx.
